@@ -56,7 +56,7 @@ def items_bound(g):
 def _run_case(args):
     from fandango.language.grammar import ParsingMode
     from fandango.language.grammar.parser.column import Column
-    from harness.fan import make, quiet
+    from harness.fan import make, quiet, struct_key
     spec, start, words, nitems, dcount, cpu_limit = args[:6]
     prefix_forest = args[6] if len(args) > 6 else True
     # the number of derivations is known (TLC enumeration, pinned witnesses): a forest that keeps yielding is endless.  For the
@@ -103,8 +103,18 @@ def _run_case(args):
                 try:
                     gen_ = f.grammar.parse_forest(inp, start, mode=mode)
                     k = 0
+                    yielded = 0
+                    distinct = set()
                     for _t in gen_:
-                        k += 1
+                        yielded += 1
+                        if count_cut and name not in ("first", "prefix-first"):
+                            # the enumeration bounds the number of *derivations*; the implementation may yield one
+                            # derivation several times (finitely often: <n>{3} over ("a"*){2} on 'aaaaa' gives 369 trees,
+                            # 39 of them distinct, and returns) - only structurally distinct trees are counted
+                            distinct.add(hash(struct_key(_t)))
+                            k = len(distinct)
+                        else:
+                            k = yielded
                         if name in ("first", "prefix-first"):
                             break
                         if not count_cut:
